@@ -1,6 +1,7 @@
 import St4sd.Model.Ini
 import St4sd.Gen.C19
 import St4sd.Lemmas.C19
+import St4sd.Lemmas.C19Names
 /-!
 # C19 — The legacy configuration format round-trips an instance
 
@@ -302,5 +303,116 @@ example : ([ ([['c','o','m','m','a','n','d'], ['e','x','e','c','u','t','a','b','
              ([variablesSeg, "MyVar".toList], .str "x y".toList),
              ([['c','o','m','m','a','n','d'], ['i','n','t','e','r','p','r','e','t','e','r']], .none) ]
            : List (Path × Val)).all (pairOk dumpTable parseTable knownKeys) = true := by decide +kernel
+
+/-! ## Names packed into the syntax of the files (`Model/IniNames.lean`)
+
+For EVERY name — whatever delimiters of the section syntax (`-`, `_`, `.`, digits, `ENV-`, `stage`) it contains. -/
+section Names
+open St4sd.IniNames
+
+private theorem startsWith_append (p x : S) : startsWith (p ++ x) p = true := by
+  simp [startsWith]
+
+/-- An environment `n` is written as section `ENV-<N>` and read back as `N`: the reader returns exactly the
+upper-cased name, so up to letter case (environment names are case-insensitive; the format stores them
+upper-cased) the loaded name is the written one — also when `n` itself contains `-`, starts with `ENV-`
+or is a reserved word. -/
+theorem section_name_roundtrip (n : S) :
+    envName (envSection n) = some (upper n) ∧ (envName (envSection n)).map lower = some (lower n) := by
+  have hu : upper (envSection n) = envPrefix ++ upper n := by
+    rw [envSection, upper_append, upper_idem]; rfl
+  have hv : virtualEnvs.contains (envPrefix ++ upper n) = false := by
+    simp only [virtualEnvs, List.contains_cons, List.contains_nil, Bool.or_false, Bool.or_eq_false_iff,
+      beq_eq_false_iff_ne, ne_eq]
+    constructor <;> (intro h; simp [envPrefix, sandboxName, environmentName] at h)
+  have h1 : envName (envSection n) = some (upper n) := by
+    unfold envName
+    simp only [hu, hv, startsWith_append]
+    simp [envSection, envPrefix]
+  exact ⟨h1, by rw [h1]; simp [lower_upper]⟩
+
+/-- two environments whose names differ by more than letter case are written to different sections -/
+theorem env_sections_distinct (a b : S) (h : upper a ≠ upper b) : envSection a ≠ envSection b := by
+  intro e
+  exact h (List.append_cancel_left e)
+
+/-- `STAGE%d` sections of `status.conf` come back as the same stage index, for every number of digits. -/
+theorem stage_section_roundtrip (i : Nat) : stageIndex (stageSection i) = some i := by
+  unfold stageIndex stageSection
+  rw [startsWith_append]
+  simp only [if_true]
+  have : (stageUpper ++ natToDigits i).drop 5 = natToDigits i := by simp [stageUpper]
+  rw [this]
+  exact St4sd.Ini.digitsToNat_natToDigits i
+
+private theorem stageWord_index (i : Nat) : stageWordIndex (stageWord i) = some i := by
+  unfold stageWordIndex stageWord
+  have hl : lower (stageLower ++ natToDigits i) = stageLower ++ lower (natToDigits i) := by
+    simp [lower, stageLower]
+  rw [hl, startsWith_append]
+  simp only [if_true]
+  have : (stageLower ++ natToDigits i).drop 5 = natToDigits i := by simp [stageLower]
+  rw [this]
+  exact St4sd.Ini.digitsToNat_natToDigits i
+
+private theorem stageWord_chars (i : Nat) (c : Char) (hc : c ∈ stageWord i) : isSpace c = false ∧ c ≠ ',' ∧ c ≠ '.' := by
+  unfold stageWord at hc
+  rcases List.mem_append.mp hc with h | h
+  · simp [stageLower] at h
+    rcases h with h | h | h | h | h <;> subst h <;> decide
+  · have hd := St4sd.Ini.natToDigits_all i
+    rw [List.all_eq_true] at hd
+    have := hd c h
+    refine ⟨digit_not_space c this, ?_, ?_⟩ <;> (intro e; subst e; simp [isDigit] at this)
+
+private theorem mapOpt_stageWords (l : List Nat) : mapOpt stageWordIndex (l.map stageWord) = some l := by
+  induction l with
+  | nil => rfl
+  | cons i r ih => simp [mapOpt, stageWord_index, ih]
+
+/-- The `stages` list of an output entry (`stage0,stage10,…`) comes back as the same list of indices. -/
+theorem output_stages_roundtrip (l : List Nat) : parseOutputStages (outputStages l) = some l := by
+  unfold parseOutputStages outputStages
+  cases l with
+  | nil => rfl
+  | cons i r =>
+    rw [splitChar_join ',' _ (by simp) (by
+      intro p hp
+      obtain ⟨j, _, rfl⟩ := List.mem_map.mp hp
+      intro hm; exact (stageWord_chars j ',' hm).2.1 rfl)]
+    have hs : ((i :: r).map stageWord).map strip = (i :: r).map stageWord := by
+      rw [List.map_map]
+      apply List.map_congr_left
+      intro j _
+      exact strip_id _ (fun c hc => (stageWord_chars j c hc).1)
+    rw [hs]
+    have hf : ((i :: r).map stageWord).filter (fun w => !w.isEmpty) = (i :: r).map stageWord := by
+      apply List.filter_eq_self.mpr
+      intro w hw
+      obtain ⟨j, _, rfl⟩ := List.mem_map.mp hw
+      simp [stageWord, stageLower]
+    rw [hf]
+    exact mapOpt_stageWords (i :: r)
+
+/-- `stage<i>.instance.conf` is recognised as the file of stage `i`, for every number of digits. -/
+theorem stage_file_roundtrip (i : Nat) : stageFileIndex (stageFile i) = some i := by
+  unfold stageFileIndex stageFile
+  have hs : instanceSuffix = '.' :: "instance.conf".toList := by decide
+  rw [hs, splitChar_append '.' (stageWord i) _ (fun hm => (stageWord_chars i '.' hm).2.2 rfl)]
+  simp only
+  have : (stageWord i).drop 5 = natToDigits i := by simp [stageWord, stageLower]
+  rw [this]
+  exact St4sd.Ini.digitsToNat_natToDigits i
+
+-- non-vacuity / concrete readings
+example : envSection "hpc-python".toList = "ENV-HPC-PYTHON".toList ∧
+    envName "ENV-HPC-PYTHON".toList = some "HPC-PYTHON".toList := by decide
+example : envName (envSection "ENV-inner".toList) = some "ENV-INNER".toList := by decide
+example : envName "SANDBOX".toList = some "SANDBOX".toList ∧ envName "Sandbox".toList = some "Sandbox".toList ∧
+    envName "other".toList = none := by decide
+example : parseOutputStages " stage2 ,stage10,, Stage3".toList = some [2, 10, 3] := by decide
+example : stageFileIndex "stage12.instance.conf".toList = some 12 ∧ stageIndex "STAGE101".toList = some 101 := by decide
+
+end Names
 
 end St4sd.C19
